@@ -17,7 +17,7 @@ import z3
 from . import sym
 from .path import Path
 from .source import Source, FuncInfo
-from .values import (SDict, HeapList, BoundBuiltin, BoundMethod, BuiltinRef, ClassRef, Closure, ExcVal, FuncRef, Infeasible,
+from .values import (GList, Poison, SDict, HeapList, BoundBuiltin, BoundMethod, BuiltinRef, ClassRef, Closure, ExcVal, FuncRef, Infeasible,
                      ModuleRef, NOTIMPL, Obj, Opaque, PDict, PList, SArr, SBool, SInt, SMap, SName, SOpt,
                      SReal, SSeq, SSet, SStrOpaque, SpecFn, Unsupported, num_term, real_term)
 
@@ -35,6 +35,12 @@ class RaiseEx(Exception):
 
 class _Break(Exception):
     pass
+
+
+class LateBound(Exception):
+    """A closure read a variable that the loop which created it keeps rebinding (late binding)."""
+    def __init__(self, name):
+        self.name = name
 
 
 class _Continue(Exception):
@@ -464,6 +470,8 @@ class Interp:
     def ev_Name(self, e, fr):
         ok, v = fr.lookup(e.id)
         if ok:
+            if isinstance(v, Poison):
+                raise LateBound(v.name)
             if isinstance(v, SOpt):
                 nv = self.models.narrow(self, v)
                 if nv is not v:
